@@ -1112,7 +1112,10 @@ func (j *c05Judge) run(recv c05Recv, calls []c05Call) {
 							j.fail("includes", sig, "Range().Includes answers False for a value the stated constraints admit: "+x.wire(), recv, calls[:i], encVal(wPrev))
 						}
 						if !incFalse && !want && !u.IsKnown() && c05Conforms(t, x) && x.kind != "other" {
-							sig := sigX + "includes-admits-excluded:" + tk + ":" + c05KindsSig(stated)
+							sig := "includes-admits-excluded:" + tk + ":" + c05KindsSig(stated)
+							if sigX != "" {
+								sig = sigX + "includes-admits-excluded:" + tk // the root cause says it all
+							}
 							if c05DroppedAt(stated, x) {
 								sig = "exclusive-singleton-infinity-dropped"
 							}
@@ -1403,6 +1406,22 @@ func runC05(ctx *Ctx) {
 		c05Seqs(infAlpha, 2, func(cs []c05Call) { enum.run(r, cs); cnt++ })
 	}
 	scope = append(scope, "number: all sequences of length<=2 over bounds at cty.NegativeInfinity/PositiveInfinity (the singletons), other infinite values and 0, incl./excl.")
+
+	// numbers that print alike at different precisions (the text-based Value.Equals): 0.1 parsed to 512 bits,
+	// 0.1 as float64, and one number held at two precisions
+	tieAlpha := []c05Call{nn}
+	p01 := cty.MustParseNumberVal("0.1")
+	f01 := cty.NumberFloatVal(0.1)
+	w01 := cty.NumberVal(new(big.Float).SetPrec(100).SetFloat64(0.1)) // the float64 value, held at 100 bits
+	for _, v := range []cty.Value{p01, f01, w01} {
+		for _, inc := range []bool{true, false} {
+			tieAlpha = append(tieAlpha, c05Call{k: "lo", a: c05Known(v), incl: inc}, c05Call{k: "hi", a: c05Known(v), incl: inc})
+		}
+	}
+	for _, r := range []c05Recv{numRecvs[0], c05KnownRecv(f01)} {
+		c05Seqs(tieAlpha, 2, func(cs []c05Call) { enum.run(r, cs); cnt++ })
+	}
+	scope = append(scope, "number: all sequences of length<=2 over bounds at 0.1 (512-bit decimal), 0.1 (float64) and the float64 value held at 100 bits, incl./excl., on an unknown and on the known float64 0.1")
 
 	// ---------- (b) random longer sequences
 	rnd := &c05Judge{ctx: ctx, allSteps: true, wireLines: 2}
